@@ -81,6 +81,10 @@ def run(ck):
             add(f"al_sel{i}_{b}", base1 + ["w " + hx(b), "bool $2", "pselpt $2 $0 $1 $0 $1", "snap"], ("alias", "selpt", P))
         add(f"al_seq{i}", base1 + ["padd $0 $1 $0 $1", "padd $0 $1 $0 $1", "pneg $0 $1", "pneg $0 $1", "snap"], ("alias", "seq", P))
         ck.count(("alias", P), kind="aliased point operands / repeated calls")
+        # the constant-wired identity (wires ZERO, ONE) as an operand, on either side
+        for opn, line, want_ in (("cid_sub_l", "psub 0 1 $0 $1", "negP"), ("cid_sub_r", "psub $0 $1 0 1", "P"), ("cid_add_l", "padd 0 1 $0 $1", "P"),
+                                 ("cid_add_r", "padd $0 $1 0 1", "P"), ("cid_neg", "pneg 0 1", "id"), ("cid_sub_ii", "psub 0 1 0 1", "id")):
+            add(f"al_{opn}{i}", base1 + [line, "snap"], ("alias", opn, P, want_))
     mpts = [("random", J.random_subgroup_point(rng)), ("identity", J.ID), ("generator", J.GEN)]
     for j, k in enumerate(scalars(rng, quick)):
         for tag, P in (mpts if (not quick or j < 3) else mpts[:1]):
@@ -157,7 +161,8 @@ def run(ck):
         elif kind == "alias":
             op, P = m[1], m[2]
             got = (val(res[-2]), val(res[-1]))
-            want = {"add": J.add(P, P), "sub": J.ID, "selpt": P, "seq": J.neg(P)}[op]
+            want = {"add": J.add(P, P), "sub": J.ID, "selpt": P, "seq": J.neg(P)}.get(op)
+            if want is None: want = {"negP": J.neg(P), "P": P, "id": J.ID}[m[3]]
             if got != want:
                 ck.violation(f"point component with aliased operands / repeated calls ({op}) returned a wrong point", {"failing_input_found": True, "program": progs[name]}, key=f"value:alias:{op}")
             job(name, snap, None, True, f"honest {op}, aliased operands", name)
